@@ -124,3 +124,40 @@ func VerifC06_Escalation() {
 	_ = time.Second
 	verifReach("end")
 }
+
+// C06 (timeout counted from the signal, project shutdown): in an ordered shutdown a process is
+// signalled only after its dependents are gone; its SIGKILL deadline is timeout_seconds after
+// ITS stop signal - not after the shutdown request.
+func VerifC06_ProjectTimeout() {
+	w := vInit()
+	db := vConf("db", nil)
+	db.ShutDownParams.ShutDownTimeout = 3
+	app := vConf("app", map[string]string{"db": types.ProcessConditionStarted})
+	appDies := 1 + verifChooseK("app.dies.after.seconds", 3) // 1..3 s
+	dbDies := verifChooseK("db.dies.after.seconds", 3)       // 0..2 s: always within its timeout
+	w.behav["app"] = &vBehav{untilStop: []bool{true}, dieSecs: appDies}
+	w.behav["db"] = &vBehav{untilStop: []bool{true}, dieSecs: dbDies}
+	r := vRunner(vProject(db, app), true)
+	runDone := make(chan error, 1)
+	go func() { runDone <- r.Run() }()
+	verifQuiesce()
+	_ = r.ShutDownProject()
+	<-runDone
+	firstStop := -1
+	for _, s := range w.stopLog {
+		if s.name != "db" {
+			continue
+		}
+		if firstStop < 0 {
+			firstStop = s.clk
+			continue
+		}
+		if s.sig == 9 {
+			verifAssert("kill.not.before.timeout.after.the.signal", s.clk-firstStop >= 3*1000000000)
+			verifFail("killed.although.it.ended.within.its.timeout")
+		}
+	}
+	verifAssert("db.was.signalled", firstStop >= 0)
+	verifAssert("nothing.alive.at.end", vAliveTotal() == 0)
+	verifReach("end")
+}
